@@ -123,6 +123,78 @@ func wrongOpMsg() []byte {
 	return wire.Frame(buf.Bytes())
 }
 
+// resubscribe: PubSub!SubscribeAgain - a subscriber transport that is subscribed to topic A is asked to subscribe to topic B
+// as well.  Whatever it answers (the library rejects the call), nothing published on B may reach A's callback, and A's
+// messages keep arriving.
+func resubscribe(b broker, workers int) {
+	runSeq++
+	prov := b.provider(workers)
+	tr, _ := prov.NewSubscriber()
+	topicA := fmt.Sprintf("verif.again%d.A", runSeq)
+	topicB := fmt.Sprintf("verif.again%d.B", runSeq)
+	var mu sync.Mutex
+	var atA, atB []string
+	read := func(log *[]string) frugal.FAsyncCallback {
+		return func(t thrift.TTransport) error {
+			bts, _ := io.ReadAll(t)
+			mu.Lock()
+			*log = append(*log, string(bts))
+			mu.Unlock()
+			return nil
+		}
+	}
+	if err := tr.Subscribe(topicA, read(&atA)); err != nil {
+		fmt.Fprintln(os.Stderr, "subscribe A:", err)
+		os.Exit(2)
+	}
+	err2 := tr.Subscribe(topicB, read(&atB))
+	if b.name() == "stomp" {
+		time.Sleep(3 * time.Millisecond)
+	}
+	for i := 0; i < 3; i++ {
+		b.raw(topicB, wire.Frame([]byte(fmt.Sprintf("for-B-%d", i))))
+	}
+	b.raw(topicA, wire.Frame([]byte("for-A")))
+	b.flush()
+	for dl := time.Now().Add(2 * time.Second); time.Now().Before(dl); time.Sleep(200 * time.Microsecond) {
+		mu.Lock()
+		n := len(atA)
+		mu.Unlock()
+		if n > 0 && (len(atA) > 1 || atA[0] == "for-A") {
+			break
+		}
+	}
+	time.Sleep(2 * time.Millisecond)
+	mu.Lock()
+	gotA := append([]string(nil), atA...)
+	mu.Unlock()
+	replay := map[string]interface{}{"transport": b.name(), "workers": workers, "scenario": "Subscribe(A); Subscribe(B) on the same transport; publish on B, then on A", "second_subscribe_error": fmt.Sprint(err2)}
+	var foreign []string
+	sawA := false
+	for _, m := range gotA {
+		if m == "for-A" {
+			sawA = true
+		} else {
+			foreign = append(foreign, m)
+		}
+	}
+	if len(foreign) > 0 {
+		res.Violations = append(res.Violations, Violation{b.name() + "/foreign-after-second-subscribe", fmt.Sprintf("%s, %d worker(s): after a second Subscribe on the same transport (answer: %v) the callback of topic A received %v, which were published on topic B", b.name(), workers, err2, foreign), replay})
+	}
+	if !sawA {
+		res.Violations = append(res.Violations, Violation{b.name() + "/message-lost-after-second-subscribe", fmt.Sprintf("%s, %d worker(s): after a second Subscribe on the same transport (answer: %v) a message published on topic A was not delivered (callback saw %v)", b.name(), workers, err2, gotA), replay})
+	}
+	if b.name() != "stomp" {
+		d := make(chan struct{})
+		go func() { tr.Unsubscribe(); close(d) }()
+		select {
+		case <-d:
+		case <-time.After(time.Second):
+		}
+	}
+	res.Runs++
+}
+
 func kindsText(c Case) string {
 	if c.Stall {
 		return fmt.Sprintf("%d x ok behind a held handler", len(c.Kinds))
@@ -445,6 +517,7 @@ func main() {
 			if t == "stomp" && w != 1 {
 				continue
 			}
+			resubscribe(b, w)
 			for i, c := range cases {
 				if (i+*offset)%*stride != 0 {
 					continue
